@@ -114,7 +114,7 @@ def cv_cases(draw):
             splits.append([sorted(perm[ntest:ntest + ntrain]), perm[:ntest]])
         cv["splits"] = splits
     return dict(dataset=ds, estimator=spec, scoring=draw(st.sampled_from(SCORERS)), cv=cv, schedule=draw(st.sampled_from(["sync", "threads", "one_at_a_time"])),
-                workers=draw(st.integers(1, 8)), order_seed=draw(st.integers(0, 10**6)), shape2d=draw(st.booleans()))
+                workers=draw(st.integers(1, 8)), order_seed=draw(st.integers(0, 10**6)), shape2d=draw(st.booleans()), orders=draw(build.orders_strategy()))
 
 
 def make_cv(cv, scale):
@@ -158,10 +158,11 @@ def check_cv(case, ctx):
     ds = case["dataset"]
     e, n, data, weights = build_data(ds)
     if case["shape2d"] and e.size % 2 == 0:
-        shp = (2, e.size // 2)
-        e, n = e.reshape(shp), n.reshape(shp)
-        data = [d.reshape(shp) for d in data]
-        weights = None if weights is None else [w.reshape(shp) for w in weights]
+        shp = (2, e.size // 2) if e.size % 3 else (3, e.size // 3)
+        lay = build.Lay(case.get("orders"))
+        e, n = lay(e, shp), lay(n, shp)
+        data = [lay(d, shp) for d in data]
+        weights = None if weights is None else [lay(w, shp) for w in weights]
     spec, scoring = case["estimator"], case["scoring"]
     cv = make_cv(case["cv"], ds["cloud"]["scale"])
     X = np.transpose([np.ravel(e), np.ravel(n)])
@@ -248,7 +249,7 @@ def tts_cases(draw):
     n = len(pts)
     return dict(layout=lay, points=pts, ncomp=draw(st.integers(1, 3)), weights=draw(st.sampled_from(["none", "given"])), blocked=draw(st.booleans()),
                 seed=draw(st.integers(0, 10**6)), test_size=draw(st.sampled_from([0.1, 0.25, 0.5, 2])), shape=draw(st.sampled_from(blocks.shape_options(n))),
-                extra=draw(st.booleans()))
+                extra=draw(st.booleans()), orders=draw(build.orders_strategy()))
 
 
 def check_tts(case, ctx):
@@ -256,12 +257,13 @@ def check_tts(case, ctx):
     shape = case["shape"]
     xy = [blocks.point_xy(lay, p) for p in case["points"]]
     n = len(xy)
-    e = np.array([p[0] for p in xy]).reshape(shape)
-    nn = np.array([p[1] for p in xy]).reshape(shape)
-    rows = np.arange(n, dtype="float64").reshape(shape)
-    coords = (e, nn) + ((rows + 0.5,) if case["extra"] else ())
-    data = tuple(1000.0 * (c + 1) + rows for c in range(case["ncomp"]))
-    weights = None if case["weights"] == "none" else tuple(0.001 * (c + 1) + rows + 1 for c in range(case["ncomp"]))
+    lay_ = build.Lay(case.get("orders"))
+    e = lay_([p[0] for p in xy], shape)
+    nn = lay_([p[1] for p in xy], shape)
+    rows = np.arange(n, dtype="float64")
+    coords = (e, nn) + ((lay_(rows + 0.5, shape),) if case["extra"] else ())
+    data = tuple(lay_(1000.0 * (c + 1) + rows, shape) for c in range(case["ncomp"]))
+    weights = None if case["weights"] == "none" else tuple(lay_(0.001 * (c + 1) + rows + 1, shape) for c in range(case["ncomp"]))
     kw = dict(random_state=case["seed"], test_size=case["test_size"])
     mem = None
     if case["blocked"]:
